@@ -5,6 +5,7 @@ CONSTANTS
   Builder = "old"
   ExcludeTouch = TRUE
   U = 2
+  EmitOn = FALSE
   TruncEnd = TRUE
   ExcludeZeroPairs = TRUE
 INVARIANT TotalOrder
